@@ -109,7 +109,8 @@ file_kind = st.sampled_from(["pe", "elf", "text", "text", "text", "empty", "larg
 
 @st.composite
 def trees(draw):
-    n = draw(st.one_of(st.integers(0, 12), st.integers(60, 75), st.integers(64, 200)))
+    # mostly more files than the 64 queue slots
+    n = draw(st.one_of(st.integers(0, 12), st.integers(60, 75), st.integers(65, 200), st.integers(65, 130)))
     files = []
     for i in range(n):
         kind = draw(file_kind)
@@ -145,15 +146,20 @@ def cases(draw):
     two_ns = draw(st.booleans())
     opts = draw(st.lists(st.sampled_from(["-s", "-L", "-X", "-m", "-g", "-e", "-c", "-n", "-f", "-w", "-t tagA", "-i r_text", "-q"]),
                          max_size=5, unique=True))
+    if draw(st.integers(0, 9)) < 6 and not any(o in ("-s", "-L", "-X") for o in opts):
+        opts = opts[:4] + [draw(st.sampled_from(["-s", "-L", "-X"]))]  # multi-line blocks are what the output lock protects
     threads = draw(st.lists(st.sampled_from([1, 2, 3, 4, 8, 16, 32]), min_size=1, max_size=3, unique=True))
+    if max(threads) < 2 and draw(st.integers(0, 9)) < 8:
+        threads = threads + [draw(st.sampled_from([2, 4, 16]))]
     ext_min = draw(st.sampled_from([0, 5, 50, 100000]))
     ext_name = draw(st.sampled_from(["go", "stop"]))
     ext_flag = draw(st.sampled_from(["true", "false"]))
+    ext_ver = draw(st.sampled_from(["go", "1.2.3", "10.0.0.1", "v2", "truely", "0x10", "1e5"]))
     ext_ratio = draw(st.sampled_from(["0.25", "0.75"]))
     recursive = draw(st.booleans())
     missing_in_list = draw(st.integers(0, 9)) == 0
     return dict(files=files, rules=idxs, two_ns=two_ns, opts=opts, threads=threads, ext_min=ext_min, ext_name=ext_name,
-                ext_flag=ext_flag, ext_ratio=ext_ratio, recursive=recursive, missing_in_list=missing_in_list)
+                ext_flag=ext_flag, ext_ratio=ext_ratio, ext_ver=ext_ver, recursive=recursive, missing_in_list=missing_in_list)
 
 
 def check_case(c):
@@ -232,7 +238,9 @@ def check_case(c):
                 f.write("\n".join(listed) + "\n")
             p = c["threads"][0]
             rc, out, err = run(base + ["-p", str(p), "--scan-list"] + rule_args + [lst])
-            got = collections.Counter(blocks(out))
+            # with -c the tool prints `<path>: 0` even for the entry it could not open; that entry is not a file
+            # of the tree, only its error line and the exit status are looked at
+            got = collections.Counter(b for b in blocks(out) if not b.startswith(os.path.join(root, "does-not-exist")))
             if got != expected:
                 raise Violation("--scan-list with -p %d prints %d blocks, the per-file scans %d" % (p, sum(got.values()), sum(expected.values())))
             has_err = any(l.startswith("error") for l in err.split("\n"))
@@ -278,6 +286,25 @@ def check_case(c):
             a, b = collections.Counter(blocks(out_src)), collections.Counter(blocks(out_bin))
             raise Violation("yara -s -m -g -e prints something else from compiled rules than from the source rules: missing e.g. %r; unexpected e.g. %r"
                             % (list((a - b).elements())[:2], list((b - a).elements())[:2]))
+        # the type of a -d definition follows its spelling (cli/common.c: integer, float with ONE dot, true/false,
+        # anything else is a string); a string external then behaves like the literal
+        if paths:
+            ver = c["ext_ver"]
+            vr = os.path.join(work, "ver.yar")
+            with open(vr, "w") as f:
+                f.write('rule r_ext_ver { condition: ext_ver == "%s" and ext_num == 12 and ext_f < 2.0 }\n' % ver)
+            dv = ["-d", "ext_ver=%s" % ver, "-d", "ext_num=12", "-d", "ext_f=1.5"]
+            rc, out, err = run([YARA] + dv + [vr, paths[0]])
+            if rc != 0 or "r_ext_ver " not in out:
+                raise Violation("-d ext_ver=%s -d ext_num=12 -d ext_f=1.5: the rule comparing them with \"%s\", 12 and 2.0 does not match (exit %d): %s"
+                                % (ver, ver, rc, err[-300:]))
+            vc = os.path.join(work, "ver.yarc")
+            rc, out, err = run([YARAC, "-d", "ext_ver=placeholder", "-d", "ext_num=0", "-d", "ext_f=9.5", vr, vc])
+            if rc != 0:
+                raise Violation("yarac with string / integer / float placeholders failed: " + err[-300:])
+            rc, out, err = run([YARA] + dv + ["-C", vc, paths[0]])
+            if rc != 0 or "r_ext_ver " not in out:
+                raise Violation("yara -C -d ext_ver=%s ...: the compiled rule does not match (exit %d): %s" % (ver, rc, err[-300:]))
         # statistics
         kinds = {k for k, _, _ in c["files"]}
         multi_line = any(o in ("-s", "-L", "-X") for o in c["opts"])
